@@ -361,11 +361,11 @@ def check_rendering(rep, prog):
               "the unparsable-input fallback does not hex-dump the whole input")
     I3 = Interpreter(prog, hooks={"opaque": {TR + "TraceEntry.read", "pel.hexdump.hexdump", TR + "_format_trace_entry", TR + "TraceStringFile.__init__"}})
     r3 = I3.call(TR + "parse_trace_data", [DATA, Sym("string_file")])
-    heads = [i[1] for i in (list_items(I3, r3) or []) if i[0] == "v" and isinstance(i[1], Op) and i[1].op == "fmt"]
+    heads = [i[1] for i in (list_items(I3, r3) or []) if i[0] == "v" and isinstance(i[1], Op) and i[1].op in ("fmt", "concat")]
     want_h = {"Component: ": (4, 16), "Version: ": (0, 1), "Size: ": (20, 24), "Times Wrapped: ": (24, 28)}
     okhd = True
     for lit, (lo, hi) in want_h.items():
-        hit = [h for h in heads if h.args[0] == Const(lit)]
+        hit = [h for h in heads if flat_parts(h)[0] == Const(lit)]
         okhd = okhd and len(hit) == 1 and any(pelx.as_slice(x) == (Const(lo), Const(hi)) for x in walk(hit[0]))
     rep.check(okhd, rule, "header lines show component (bytes 4..15), version (byte 0), size (20..23) and wrap count (24..27)", TR + "parse_trace_data",
               "lines.append(f'Component: ...')", "header lines do not show comp/ver/size/times_wrap of the header")
